@@ -341,20 +341,23 @@ Section Auth2.
     - tr; [exact S3|apply IH].
   Qed.
 
+  Lemma a_wait_reset c ids s : stepa s (wait_reset sc c ids s).
+  Proof. apply stepa_same; [apply wait_reset_tbl|rewrite wait_reset_cl; reflexivity|apply wait_reset_tr]. Qed.
+
   Lemma a_wait_task c g ids s : stepa s (wait_task sc c g ids s).
   Proof.
     unfold wait_task. cbv zeta.
     pose proof (a_wait_start c g ids s) as S1.
     destruct (wait_start c g ids s) as [s1 w1]. cbn [fst] in S1.
-    destruct (w_pending w1); [exact S1|].
+    destruct (w_pending w1); [tr; [exact S1|apply a_wait_reset]|].
     destruct (match e_watch_err_at (sc_env sc) with Some n => Nat.eqb n (snd g) | None => false end);
       [tr; [exact S1|apply stepa_set_abort]|].
     pose proof (a_deliver c g ids (w_deliv (nth (snd g) (e_waits (sc_env sc)) (mkW [] WTimeout))) s1 w1) as S2.
     destruct (deliver sc c g ids _ s1 w1) as [s2 w2]. cbn [fst] in S2.
     tr; [exact S1|]. tr; [exact S2|].
-    destruct (w_pending w2); [apply stepa_refl|].
+    destruct (w_pending w2); [apply a_wait_reset|].
     destruct (w_end _).
-    - destruct (match c with AllCurrent => _ | AllNotFound => _ end); [apply a_wait_timeout|apply stepa_set_abort].
+    - destruct (match c with AllCurrent => _ | AllNotFound => _ end); [tr; [apply a_wait_timeout|apply a_wait_reset]|apply stepa_set_abort].
     - apply stepa_set_abort.
   Qed.
 
@@ -395,10 +398,11 @@ Section Auth2.
   Lemma a_apply_one g s p : local_ok p -> stepa s (apply_one sc pl g s p).
   Proof.
     intros [Hin Hl]. unfold apply_one. destruct (p_local p) as [l|] eqn:EL; [|apply stepa_refl].
-    pose proof (a_policy_apply_filter s (p_id p)) as P.
-    destruct (policy_apply_filter sc s (p_id p)) as [s1 f1]. cbn [fst] in P.
     assert (RA : forall s0 e a u gg, stepa s0 (rec_add (ev s0 e) (p_id p) SApply a u gg)).
     { intros. tr; [apply stepa_ev|]. apply stepa_rec_add. intros _. exact Hin. }
+    destruct (negb (kind_known sc (r_known s) (p_id p))); [apply RA|].
+    pose proof (a_policy_apply_filter s (p_id p)) as P.
+    destruct (policy_apply_filter sc s (p_id p)) as [s1 f1]. cbn [fst] in P.
     destruct (match f1 with FPass => _ | _ => _ end).
     - assert (K : stepa s1 (fst (kubectl_apply sc s1 l))) by (apply a_kubectl_apply; rewrite (Hl l eq_refl); exact Hin).
       destruct (kubectl_apply sc s1 l) as [s2 r]. cbn [fst] in K.
@@ -591,17 +595,17 @@ End Auth3.
 Section Auth4.
   Variable sc : scenario.
 
-  Lemma bp_apply_valid locals pobjs i :
-    In i (apply_ids (build_plan sc locals pobjs)) -> ~ In i (pl_invalid (build_plan sc locals pobjs)).
+  Lemma bp_apply_valid known locals pobjs i :
+    In i (apply_ids (build_plan sc known locals pobjs)) -> ~ In i (pl_invalid (build_plan sc known locals pobjs)).
   Proof.
     unfold apply_ids, build_plan. cbv zeta. destruct (kahn _ _ _) as [layers cyc]. cbn [pl_apply pl_invalid].
     intros H. apply in_map_iff in H. destruct H as [p [<- Hp]]. apply filter_In in Hp. destruct Hp as [_ Hp].
     apply negb_true_iff in Hp. intros Hin. apply memn_In in Hin. congruence.
   Qed.
 
-  Lemma bp_prune_valid locals pobjs c :
-    In (pobj_of_live c) (pl_prune (build_plan sc locals pobjs)) ->
-    In c pobjs /\ ~ In (c_id c) (pl_invalid (build_plan sc locals pobjs)).
+  Lemma bp_prune_valid known locals pobjs c :
+    In (pobj_of_live c) (pl_prune (build_plan sc known locals pobjs)) ->
+    In c pobjs /\ ~ In (c_id c) (pl_invalid (build_plan sc known locals pobjs)).
   Proof.
     unfold build_plan. cbv zeta. destruct (kahn _ _ _) as [layers cyc]. cbn [pl_prune pl_invalid].
     intros H. apply filter_In in H. destruct H as [H1 H2]. split.
@@ -621,9 +625,9 @@ Section Auth4.
     apply in_map_iff in HL. destruct HL as [l [<- _]]. eapply pick_In'. exact Hp.
   Qed.
 
-  Lemma bp_local_ok locals pobjs layer p :
-    In layer (pl_apply_layers (build_plan sc locals pobjs)) -> In p layer ->
-    local_ok (build_plan sc locals pobjs) p.
+  Lemma bp_local_ok known locals pobjs layer p :
+    In layer (pl_apply_layers (build_plan sc known locals pobjs)) -> In p layer ->
+    local_ok (build_plan sc known locals pobjs) p.
   Proof.
     unfold local_ok, apply_ids, build_plan. cbv zeta. destruct (kahn _ _ _) as [layers cyc].
     cbn [pl_apply_layers pl_apply]. intros HL Hp. pose proof (hydrate_In' _ _ _ _ HL Hp) as H. split.
@@ -632,9 +636,9 @@ Section Auth4.
       intros l [= <-]. reflexivity.
   Qed.
 
-  Lemma bp_prune_ok locals pobjs layer p :
-    In layer (pl_prune_layers (build_plan sc locals pobjs)) -> In p layer ->
-    prune_ok (build_plan sc locals pobjs) p.
+  Lemma bp_prune_ok known locals pobjs layer p :
+    In layer (pl_prune_layers (build_plan sc known locals pobjs)) -> In p layer ->
+    prune_ok (build_plan sc known locals pobjs) p.
   Proof.
     unfold prune_ok, build_plan. cbv zeta. destruct (kahn _ _ _) as [layers cyc].
     cbn [pl_prune_layers pl_prune]. intros HL Hp.
@@ -671,10 +675,10 @@ Section Auth4.
     constructor; [exact I|apply IH; exact Ht].
   Qed.
 
-  Lemma tasks_of_ok locals pobjs :
-    Forall (task_ok (build_plan sc locals pobjs)) (tasks_of sc (build_plan sc locals pobjs)).
+  Lemma tasks_of_ok known locals pobjs :
+    Forall (task_ok (build_plan sc known locals pobjs)) (tasks_of sc (build_plan sc known locals pobjs)).
   Proof.
-    unfold tasks_of. set (pl := build_plan sc locals pobjs).
+    unfold tasks_of. set (pl := build_plan sc known locals pobjs).
     assert (A : Forall (task_ok pl) (fst (match pl_apply pl with [] => ([], 0) | _ => apply_tasks sc 0 0 (pl_apply_layers pl) end))).
     { destruct (pl_apply pl); [constructor|]. apply apply_tasks_ok. intros layer q. apply bp_local_ok. }
     destruct (match pl_apply pl with [] => ([], 0) | _ => apply_tasks sc 0 0 (pl_apply_layers pl) end) as [at_ kw].
@@ -713,7 +717,10 @@ Section Auth4.
   Proof.
     induction ids as [|i t IH]; intros s; cbn [fetch_all].
     - split; [reflexivity|]. split; [reflexivity|]. intros found E c Hc. cbn in E. injection E as <-. destruct Hc.
-    - pose proof (get_obj_cl s i) as [G1 G2]. pose proof (get_obj_found s i) as GF.
+    - destruct (negb (kind_known sc (r_known s) i)).
+      { destruct (IH s) as [A [B C]]. split; [exact A|]. split; [exact B|].
+        intros found E c Hc. destruct (C found E c Hc). split; [right|]; assumption. }
+      pose proof (get_obj_cl s i) as [G1 G2]. pose proof (get_obj_found s i) as GF.
       destruct (get_obj sc s i) as [s1 g]. cbn [fst snd] in *.
       destruct g as [| |c]; cbn [fst snd].
       + split; [exact G1|]. split; [exact G2|]. intros found E. discriminate.
@@ -737,7 +744,7 @@ Section Auth5.
   (* the plan of a run: None when a read before planning was rejected *)
   Definition run_plan (c0 : cluster) : option (plan * list lobj) :=
     let locals := if o_destroy (sc_opts sc) then [] else sc_local sc in
-    let '(s1, r1) := inv_list sc (init_state c0) in
+    let '(s1, r1) := inv_list sc (init_state sc c0) in
     match r1 with
     | None => None
     | Some st =>
@@ -745,7 +752,7 @@ Section Auth5.
         let '(s2, r2) := fetch_all sc s1 (sortn (diffn prev0 (map l_id locals))) in
         match r2 with
         | None => None
-        | Some pobjs => Some (build_plan sc locals pobjs, locals)
+        | Some pobjs => Some (build_plan sc (r_known s2) locals pobjs, locals)
         end
     end.
 
@@ -756,6 +763,7 @@ Section Auth5.
   Lemma fetch_all_tr ids : forall s, r_tr (fst (fetch_all sc s ids)) = r_tr s.
   Proof.
     induction ids as [|i t IH]; intros s; cbn [fetch_all]; [reflexivity|].
+    destruct (negb (kind_known sc (r_known s) i)); [apply IH|].
     pose proof (get_obj_tr s i) as G. destruct (get_obj sc s i) as [s1 g]. cbn [fst] in G.
     destruct g; cbn [fst]; [exact G|rewrite IH; exact G|].
     specialize (IH s1). destruct (fetch_all sc s1 t) as [s2 r]. cbn [fst] in *. congruence.
@@ -806,9 +814,9 @@ Section Auth5.
   Proof.
     rewrite (run_is_finish sc). unfold finish. cbn [out_trace].
     unfold run_plan, run_state. cbv zeta.
-    pose proof (inv_list_tr (init_state c0)) as T1. pose proof (inv_list_cl sc (init_state c0)) as [C1 B1].
-    pose proof (inv_list_res sc (init_state c0)) as R1.
-    destruct (inv_list sc (init_state c0)) as [s1 r1]. cbn [fst snd] in *.
+    pose proof (inv_list_tr (init_state sc c0)) as T1. pose proof (inv_list_cl sc (init_state sc c0)) as [C1 B1].
+    pose proof (inv_list_res sc (init_state sc c0)) as R1.
+    destruct (inv_list sc (init_state sc c0)) as [s1 r1]. cbn [fst snd] in *.
     destruct r1 as [st|].
     2:{ intros r ok m st0. unfold not. intros H. apply in_rev in H. cbn in H. destruct H as [H|[H|H]]; try discriminate.
         rewrite T1 in H. destruct H. }
@@ -820,7 +828,7 @@ Section Auth5.
     destruct r2 as [pobjs|].
     2:{ intros r ok m st0. unfold not. intros H. apply in_rev in H. cbn in H. destruct H as [H|[H|H]]; try discriminate.
         rewrite T2, T1 in H. destruct H. }
-    set (pl := build_plan sc locals pobjs).
+    set (pl := build_plan sc (r_known s2) locals pobjs).
     pose proof (register_facts pl s2) as [C3 [T3 B3]].
     set (s3 := register sc pl s2) in *.
     pose proof (inv_list_tr s3) as T4. pose proof (inv_list_cl sc s3) as [C4 B4].
@@ -888,14 +896,14 @@ Section Auth6.
     ~ In (c_id c) (pl_invalid pl).
   Proof.
     unfold run_plan. cbv zeta.
-    pose proof (inv_list_cl sc (init_state c0)) as [C1 _]. pose proof (inv_list_res sc (init_state c0)) as R1.
-    destruct (inv_list sc (init_state c0)) as [s1 r1]. cbn [fst snd] in *.
+    pose proof (inv_list_cl sc (init_state sc c0)) as [C1 _]. pose proof (inv_list_res sc (init_state sc c0)) as R1.
+    destruct (inv_list sc (init_state sc c0)) as [s1 r1]. cbn [fst snd] in *.
     destruct r1 as [st|]; [|discriminate]. specialize (R1 st eq_refl). cbn [init_state r_cl] in R1. subst st.
     match goal with |- context [fetch_all sc s1 ?c] => set (cand := c) in * end.
     pose proof (fetch_all_cl sc cand s1) as [_ [_ F]].
     destruct (fetch_all sc s1 cand) as [s2 r2]. cbn [fst snd] in *.
     destruct r2 as [pobjs|]; [|discriminate]. intros [= <- <-] Hin.
-    destruct (bp_prune_valid sc _ _ _ Hin) as [Hc Hv].
+    destruct (bp_prune_valid sc _ _ _ _ Hin) as [Hc Hv].
     destruct (F pobjs eq_refl c Hc) as [Hcand Hfind]. rewrite C1 in Hfind. cbn [init_state r_cl] in Hfind.
     split; [exact Hfind|]. unfold cand in Hcand. apply (proj1 (sortn_In _ _)) in Hcand. apply (proj1 (diffn_In _ _ _)) in Hcand.
     destruct Hcand as [A B]. split; [exact A|]. split; [exact B|exact Hv].
@@ -906,7 +914,7 @@ Section Auth6.
     ~ In i (pl_invalid pl) /\ In i (map l_id locals).
   Proof.
     unfold run_plan. cbv zeta.
-    destruct (inv_list sc (init_state c0)) as [s1 r1]. destruct r1 as [st|]; [|discriminate].
+    destruct (inv_list sc (init_state sc c0)) as [s1 r1]. destruct r1 as [st|]; [|discriminate].
     destruct (fetch_all sc s1 _) as [s2 r2]. destruct r2 as [pobjs|]; [|discriminate].
     intros [= <- <-] Hin. split; [apply bp_apply_valid; exact Hin|].
     unfold apply_ids, build_plan in Hin. cbv zeta in Hin. destruct (kahn _ _ _) as [layers cyc]. cbn [pl_apply] in Hin.
@@ -916,9 +924,9 @@ Section Auth6.
   Qed.
 
   (* every invalid object is named by a validation error of the plan *)
-  Lemma invalid_named locals pobjs i :
-    In i (pl_invalid (build_plan sc locals pobjs)) ->
-    exists e, In e (pl_valerrs (build_plan sc locals pobjs)) /\ In i e.
+  Lemma invalid_named known locals pobjs i :
+    In i (pl_invalid (build_plan sc known locals pobjs)) ->
+    exists e, In e (pl_valerrs (build_plan sc known locals pobjs)) /\ In i e.
   Proof.
     unfold build_plan. cbv zeta. destruct (kahn _ _ _) as [layers cyc]. cbn [pl_invalid pl_valerrs].
     intros H. apply (proj1 (dedupn_In _ _)) in H. apply in_app_or in H. destruct H as [H|H].
@@ -945,8 +953,8 @@ Section Auth6.
   Proof.
     intros RP EE NE. rewrite (run_is_finish sc). unfold finish. cbn [out_trace].
     unfold run_plan, run_state in *. cbv zeta in *.
-    pose proof (inv_list_tr sc (init_state c0)) as T1.
-    destruct (inv_list sc (init_state c0)) as [s1 r1]. cbn [fst] in T1.
+    pose proof (inv_list_tr sc (init_state sc c0)) as T1.
+    destruct (inv_list sc (init_state sc c0)) as [s1 r1]. cbn [fst] in T1.
     destruct r1 as [st|]; [|discriminate].
     match goal with |- context [fetch_all sc s1 ?c] => set (cand := c) in * end.
     pose proof (fetch_all_tr sc cand s1) as T2.
